@@ -1,12 +1,11 @@
 #!/usr/bin/env python3
 """Writes /verif/seeded/RESULTS.md from work/mutants-<tier>.json (output of run_mutants.py)."""
-import json, os
+import glob, json, os
 V = os.path.dirname(os.path.dirname(os.path.abspath(__file__)))
 rows = []
 res = {}
 for tier in ("quick", "thorough"):
-    p = os.path.join(V, "work", "mutants-%s.json" % tier)
-    if os.path.exists(p):
+    for p in sorted(glob.glob(os.path.join(V, "work", "mutants-%s*.json" % tier)), key=os.path.getmtime):
         for n, r in json.load(open(p)).items():
             res.setdefault(n, {}).update({(tier, k): v for k, v in r.items()})
 out = ["# Seeded changes (sub-agent mutants) and the checks that catch them", "",
@@ -26,6 +25,12 @@ for n in sorted(os.listdir(os.path.join(V, "seeded"))):
     if len(needs) > 220:
         needs = needs[:220] + "…"
     first = q.get("first", "").replace("|", "/")[:140]
-    out.append("| %s | %s | %s | %s | %s |" % (n, m["property"], needs, q.get("status", "not run"), first))
+    status = q.get("status", "not run")
+    if status != "CAUGHT":  # caught by the thorough tier only, or by the check of a neighbouring property
+        for (tier, prop), v in sorted(r.items()):
+            if v.get("status") == "CAUGHT":
+                status += "; CAUGHT by %s %s" % (prop, tier)
+                first = first or v.get("first", "").replace("|", "/")[:140]
+    out.append("| %s | %s | %s | %s | %s |" % (n, m["property"], needs, status, first))
 open(os.path.join(V, "seeded", "RESULTS.md"), "w").write("\n".join(out) + "\n")
 print("\n".join(out[-42:]))
